@@ -42,8 +42,24 @@ def check(run: Run) -> None:
     run.rule("C19.R2", "every lowering branch is guarded by len(node.args) == 1 and by the absence of keywords")
     run.rule("C19.R3", "fold literal == acc+1 / acc+v / max / min on the integer grid (all orderings); seed is Constant(0); Aggregate(seq, seed, fold)")
     run.rule("C19.R4", "the sequence argument is visited; every other path returns generic_visit(node)")
-    odd = sorted(n for n in cls.methods if n in ("visit", "generic_visit") or (n.startswith("visit_") and n != "visit_Call"))
-    run.check(not odd, "C19.R4", fi, cls.node, "the transformer defines visit_Call only (the traversal protocol is the stdlib's)", f"aggregate_node_transformer also defines {odd}: the traversal no longer reaches every node (e.g. a node object that occurs twice, or nodes below another kind), so some shortcut calls stay un-lowered", "only visit_Call")
+    odd = sorted(n for n in list(cls.methods) + list(cls.class_assigns) if n in ("visit", "generic_visit"))
+    run.check(not odd, "C19.R4", fi, cls.node, "the traversal protocol is the stdlib's (visit / generic_visit are not overridden)", f"aggregate_node_transformer overrides {odd}: the traversal no longer reaches every node, so some shortcut calls stay un-lowered", "only visit_<Kind> handlers")
+    # any further visit_<Kind> handler (a method, or a class-level alias of one) must hand back its node with everything below it visited
+    from ..visitors import dispatch_entries, unvisited_in_entry
+
+    ctx_e = TermCtx(m, max_depth=2)
+    for other in dispatch_entries(m, cls):
+        en = getattr(other, "entry_name", other.name)
+        if en == "visit_Call":
+            continue
+        for s_, leaked, whole in unvisited_in_entry(ctx_e, other):
+            run.fail("C19.R4", other, s_, f"{en} returns {show(leaked)} without visiting it: len / Count / Sum / Max / Min calls anywhere below such a node (in the receiver chain of a method call, in an attribute's object) are not lowered", "return self.generic_visit(node)", show(whole)[:200])
+        ofa = ctx_e.analysis(other)
+        nodep_o = ("param", other.pos_params[1]) if len(other.pos_params) > 1 else None
+        for s_, n_ in ofa.returns():
+            t_ = strip_sites(ofa.term_of(s_.value, n_)) if s_.value is not None else ("const", None)
+            same = t_ == nodep_o or (t_[0] == "gvisit" and t_[1] == nodep_o)
+            run.check(same, "C19.R4", other, s_, f"{en} hands back its own node", f"{en} returns {show(t_)[:100]}: a node kind other than the five shortcut calls is changed", "return self.generic_visit(node)", show(t_)[:200])
     ctx = TermCtx(m, max_depth=4)
     fa = ctx.analysis(fi)
     node_p = ("param", fi.pos_params[1])
